@@ -383,7 +383,6 @@ func (l *noMixConstraintImpl) EstimateIsViolated(
 	}
 	previousNoMixData := previousStopImp.ConstraintData(l).(*noMixSolutionStopData)
 	contentName := previousNoMixData.content.Name
-	contentQuantity := previousNoMixData.content.Quantity
 
 	deltaQuantity := 0
 
@@ -420,7 +419,10 @@ func (l *noMixConstraintImpl) EstimateIsViolated(
 		}
 		removeMixItem, hasRemoveMixItem := l.remove[moveImpl.stopPositions[idx].Stop().ModelStop()]
 		if hasRemoveMixItem {
-			if contentName != removeMixItem.Name || contentQuantity+deltaQuantity < removeMixItem.Quantity {
+			// The stops of the move can only remove what the stops of the
+			// move in front of them have inserted: what other stops have
+			// inserted is removed by stops that can be anywhere in between.
+			if contentName != removeMixItem.Name || deltaQuantity < removeMixItem.Quantity {
 				return true, constNoPositionsHint
 			}
 			deltaQuantity -= removeMixItem.Quantity
